@@ -69,7 +69,13 @@ def euler_records(rnd, tier):
                 noz_mesh = None
                 if which == "nozzle":
                     noz_mesh = fd.mesh.refinedmesh(ncell=n, length=1.0, ratio=2.0) if n >= 2 else fd.uniform(n)
-                    model.initdisc(noz_mesh)
+                    # history, both orders: every other nozzle case the model has ALREADY served a sibling mesh (same cell count
+                    # and length, other cell positions or another origin) before it meets the mesh of the field; the other cases
+                    # meet the sibling afterwards (below) -- seed C17h: geometric terms cached on (ncell, length)
+                    if (c // 3) % 2 == 1:
+                        model.initdisc(fd.uniform(n, length=1.0, x0=rnd.choice([0.0, 0.5])))
+                    else:
+                        model.initdisc(noz_mesh)
                 uu = u
                 prim = [np.full(n, rho), np.full(n, u), np.full(n, p)]
             # one case in three states the uniform state through the field constructor's uniform-value entry point (scalars, the
